@@ -441,6 +441,32 @@ impl<'a> FusedFuture for TimerFuture<'a> {
     }
 }
 
+#[cfg(all(futures_intrusive_verif, feature = "alloc"))]
+impl<MutexType: RawMutex> GenericTimerService<MutexType> {
+    /// Read-only snapshot of the internal state for the verification harness
+    pub fn verif_snapshot(
+        &self,
+        is_live: crate::verif::IsLive<'_>,
+    ) -> crate::verif::Snapshot {
+        let state = self.inner.lock();
+        let mut snap = crate::verif::Snapshot::default();
+        snap.queues.push(crate::verif::snap_heap(
+            "waiters",
+            &state.waiters,
+            is_live,
+            &|e: &TimerQueueEntry| {
+                let code = match e.state {
+                    PollState::Unregistered => 0,
+                    PollState::Registered => 1,
+                    PollState::Expired => 2,
+                };
+                (code, e.task.is_some(), e.expiry)
+            },
+        ));
+        snap
+    }
+}
+
 // Export a non thread-safe version using NoopLock
 
 /// A [`GenericTimerService`] implementation which is not thread-safe.
